@@ -44,7 +44,7 @@ def run(c):
     binary = c.go_build(HARNESS)
     if binary:
         gen(c, binary)
-    c.prove("SH.Props.C28", extra_files=["SH/Model/PromSyntax.lean", "SH/Model/PromLex.lean", "SH/Lemmas/PromSyntaxSound.lean", "SH/Lemmas/PromLexNum.lean", "SH/Lemmas/PromLexStr.lean", "SH/Lemmas/PromLexAllSteps.lean", "SH/Model/PromLexAll.lean", "SH/Gen/C28.lean"])
+    c.prove("SH.Props.C28", extra_files=["SH/Model/PromSyntax.lean", "SH/Model/PromLex.lean", "SH/Lemmas/PromSyntaxSound.lean", "SH/Lemmas/PromLexNum.lean", "SH/Lemmas/PromLexStr.lean", "SH/Lemmas/PromLexAllSteps.lean", "SH/Lemmas/PromLexChain.lean", "SH/Model/PromLexAll.lean", "SH/Gen/C28.lean"])
     drv = c.driver(DRIVER)
     if binary and drv:
         rc, out = c.go_run(binary, ["-mode=corpus", f"-arg={CORPUS}"])
@@ -103,7 +103,10 @@ META = {
              "models the complete state machine of lex.go (blanks, comments, operators, brace/bracket modes, paren depth, the "
              "literal scanners); lexer_steps + Lemmas/PromLexAllSteps lift every per-token theorem to one step of that machine "
              "(right token, right successor state, rest of the text) for each token class the printer writes, and "
-             "lex_range_suffix composes them across the `[`..`]` mode. `decide` witnesses show the printer "
+             "lex_range_suffix composes them across the `[`..`]` mode; Lemmas/PromLexChain: a derivation of justified steps through a "
+             "text determines lexAll (Lexes.lexAll), and accepted_roundtrip_text_fragment_partial is the first character-level "
+             "round trip - for every identifier, range and offset the text `name[<n>s] offset <m>s` is lexed to exactly its six "
+             "tokens, the duration texts denote n and m, and the token-level round trip holds. `decide` witnesses show the printer "
              "before the fix violated the property in six ways. Ties: per generated source the real ParseExpr (accept/reject, "
              "tree), the real String() (token sequence), and the real lexer on every string, number, duration and word token "
              "(ops lexstr, lexnum, lexdur, lexword), the real lexer on the WHOLE source and the WHOLE printed text (op lexall), parseDuration on every duration literal (pdur), `%ds` (durtext), `@` "
@@ -118,7 +121,8 @@ META = {
              "ParseFloat) are explicit hypotheses of string_token_roundtrip / number_literal_roundtrip, discharged by the "
              "round-trip oracle only; the lexical theorems are per token class and per lexer step: a character-level model of "
              "the printer's spacing and the induction chaining the steps over a whole printed expression (lexAll(printText e) = "
-             "tokens of printExpr e) are NOT proved, so accepted_roundtrip is not yet one character-level statement - on every "
+             "tokens of printExpr e) are NOT proved beyond that one family (range selectors with an offset), so accepted_roundtrip is not yet one "
+             "character-level statement for all expressions (not even for the fragment without unary signs) - on every "
              "generated case that composition is checked by the correspondence (print + lexall); parseDuration's float rounding is modelled exactly, which agrees with the code below "
              "2^59 ns (18 years) - `100y500ms` rounds down in the code; `@` timestamps rendered exactly for |ms| < 2^52; the order "
              "in which matchers are printed is not modelled; 'never panics' is the direct oracle only. Trusted: Lean kernel; the "
